@@ -270,6 +270,9 @@ func (r *run) clientScript(p *peer, sc []WStep) *kit.Failure {
 	for _, st := range sc {
 		d := p.docs[st.D]
 		k := r.keys[st.D]
+		if st.Op != "yield" && st.Op != "lag" {
+			r.logf("[%d] c%d %s doc %d (a%d b%d c%d) attached=%v", r.seq.Load(), p.idx, st.Op, st.D, st.A, st.B, st.C, d != nil)
+		}
 		switch st.Op {
 		case "edit":
 			if d == nil {
@@ -416,6 +419,38 @@ func execute(w Workload) (fail *kit.Failure, ev map[string]int, hist []string) {
 		}
 	}()
 	defer func() {
+		if fail != nil && strings.HasSuffix(fail.Kind, "FAIL") {
+			// diagnostics for a failing client step: the stored log of every document
+			for d, k := range r.keys {
+				di, err := documents.FindDocInfoByKey(ctx, s.BE, proj, k)
+				if err != nil {
+					continue
+				}
+				infos, err := s.DB.Database.FindChangeInfosBetweenServerSeqs(ctx, di.RefKey(), 1, math.MaxInt64)
+				if err != nil {
+					continue
+				}
+				r.logf("-- stored log of doc %d (%s), head %d, epoch %d", d, k, di.ServerSeq, di.Epoch)
+				for _, ci := range infos {
+					c, err := ci.ToChange()
+					if err != nil {
+						continue
+					}
+					var ops []string
+					for _, op := range c.Operations() {
+						ops = append(ops, strings.TrimPrefix(fmt.Sprintf("%T", op), "*operations.")+"@"+op.ParentCreatedAt().ToTestString())
+					}
+					r.logf("   seq %d actor %s cseq %d lamport %d vv %s ops %v", ci.ServerSeq, ci.ActorID.String()[18:], ci.ClientSeq, ci.Lamport, ci.VersionVector.Marshal(), ops)
+				}
+			}
+			for _, p := range r.peers {
+				for d, doc := range p.docs {
+					if doc != nil {
+						r.logf("-- c%d (%s) doc %d: checkpoint %s vv %s garbage %d: %s", p.idx, p.id[18:], d, doc.Checkpoint().String(), doc.VersionVector().Marshal(), doc.GarbageLen(), abbreviate(doc.Marshal(), 300))
+					}
+				}
+			}
+		}
 		ev, hist = r.ev, r.log
 		if fail != nil && fail.Kind == "DEADLOCK" {
 			return // the server is wedged: cleaning up would only wait for timeouts
